@@ -203,7 +203,18 @@ func (fc *fileCtx) passMNode(n ast.Node, depth int, fn string) {
 						fc.replace(sel.Pos(), sel.End(), simName+"."+name)
 						fc.keepAlive[id.Name+".Now"] = true
 						record("clock_"+strings.ToLower(name), site, fn)
-					case "After", "Tick", "NewTimer", "AfterFunc", "NewTicker":
+					case "AfterFunc":
+						if fc.passY && len(n.Args) == 2 {
+							// a callback timer: the simulator owns its deadline (simulated clock) and runs the
+							// callback as a task of its own
+							fc.replace(sel.Pos(), sel.End(), simName+".AfterFunc")
+							fc.insert(n.Rparen, ", "+q(site), 90-depth)
+							fc.keepAlive[id.Name+".Now"] = true
+							record("timer_afterfunc", site, fn)
+						} else {
+							rep.Uncontrolled = append(rep.Uncontrolled, siteRec{Kind: "time." + name, Site: site, Func: fn})
+						}
+					case "After", "Tick", "NewTimer", "NewTicker":
 						if fc.passY {
 							// a real timer inside the scheduled packages: the simulator cannot own it
 							rep.Unmodelled = append(rep.Unmodelled, siteRec{Kind: "time." + name, Site: site, Func: fn})
@@ -245,6 +256,17 @@ func (fc *fileCtx) passMNode(n ast.Node, depth int, fn string) {
 			if namedPath(selection.Recv()) == "reflect.Value" {
 				rep.Uncontrolled = append(rep.Uncontrolled, siteRec{Kind: "reflect_" + name, Site: site, Func: fn})
 			}
+			return
+		}
+		if mpath == "time" && fc.passY && namedPath(selection.Recv()) == "time.Timer" && (name == "Stop" || name == "Reset") {
+			// x.Stop() -> simrt.TimerStop(x); x.Reset(d) -> simrt.TimerReset(x, d)
+			fc.insert(sel.X.Pos(), simName+".Timer"+name+"(", 10+depth)
+			if name == "Stop" {
+				fc.replace(sel.X.End(), n.Rparen+1, ")")
+			} else {
+				fc.replace(sel.X.End(), n.Lparen+1, ", ")
+			}
+			record("timer_"+strings.ToLower(name), site, fn)
 			return
 		}
 		if !strings.HasPrefix(mpath, "google.golang.org/protobuf/") {
